@@ -21,7 +21,10 @@
 (* events of the tick, `idle` (Kanata::is_idle) and `cb`.  The C01 trace      *)
 (* pre-processor (tools/props/c01.py) renders the press / release of an       *)
 (* arbitrary raw code n as key 100000 + n, and a key whose name the harness   *)
-(* could not resolve as a number >= 200000, so that keys are numbers.         *)
+(* could not resolve as a number >= 200000, so that keys are numbers; while a *)
+(* physical key is down it writes a run of ticks with the same scroll /       *)
+(* mouse-move-only output once (MonTick is idempotent on them: quiet stays 0, *)
+(* the OS key state is unchanged).                                            *)
 (*                                                                         *)
 (* R1 (soft, only counted): a release is emitted for a key / button the OS   *)
 (*    does not see pressed (the hidden sequence modes and chords v1 do this  *)
